@@ -22,6 +22,9 @@ CHECKS = {
  "C06": ("fault_enumeration", "runtime fault injection with deviating executors: histories are run with a permutation executor / decomposition hints that deviate on values the verifier does not fix, the traces are proven with the honest prover data and verified; accepted proofs must carry the native challenges",
          "Per configuration: every limb class (rate, capacity, single limb, high coefficients) x value kinds x permutation index, plus non-canonical decomposition hints; 8 provable configurations x recompose on/off.",
          "DESIGN.md §3 C06", TRUSTED),
+ "C18": ("exploration", "runtime monitor over repeated executions: each program is rebuilt several times in-process (fresh hash seeds per map) and in freshly spawned processes; canonical digests of ops, numbering, maps, preprocessed columns, AIR order and preprocessed commitment are compared; a canary map shows the iteration-order dimension was varied",
+         "Generated programs on 8 setups plus NPO-rich BabyBear D4 circuits (Poseidon2 + recompose, tags, connects); 5-8 in-process repetitions and 3-6 processes each. Hash seeds are sampled, a non-determinism needing a specific collision can be missed; the `parallel` feature is not varied.",
+         "DESIGN.md §3 C18", TRUSTED),
  "C19": ("fault_enumeration", "runtime fault injection on the runner API executed under two build profiles and under the Miri interpreter: each (circuit, input fault) is run by the release binary, by a dev-profile build and (sample) under Miri; outcomes compared, Ok on a faulted run or any UB report is a violation",
          "Faults: inputs withheld / short / long / set twice / conflicting, private data missing / duplicated / wrong type / wrong size / unknown op, non-boolean direction bit; circuits whose inputs feed ALU rows, hints and Poseidon2 rows (sponge, chained, Merkle) directly.",
          "DESIGN.md §3 C19", TRUSTED),
